@@ -36,10 +36,11 @@ def gen_cases(tier, seed):
         nu = crystals.natoms(name)
         smats = setup.smat_list(max(1, 48 // nu), rng=rng, n_random=1)
         smats = [m for m in smats if setup.det3(m) > 1] or smats
+        lang = ["C", "C", "Py"][rng.integers(3)]  # (not tied to the crystal: an index-parity rule once kept the triclinic cells on the Python path only)
         cases.append({"kind": "deriv", "crystal": {"name": name, "order": ["asis", "random"][rng.integers(2)], "order_seed": int(rng.integers(100)),
                                                    "rot_seed": int(rng.integers(100)) if rng.integers(3) == 0 else None},
                       "smat": smats[rng.integers(len(smats))], "pmat": ["P", "centring"][rng.integers(2)], "fcclass": ["sym", "arbitrary"][rng.integers(2)],
-                      "nac": [None, "wang"][rng.integers(2)] if name in crystals.POLAR else None, "full": bool(rng.integers(2)) or bool(i % 2), "lang": ["C", "Py"][i % 2],  # the Python derivative asserts full layout
+                      "nac": [None, "wang"][rng.integers(2)] if name in crystals.POLAR else None, "full": bool(rng.integers(2)) or lang == "Py", "lang": lang,  # the Python derivative asserts full layout
                       "seed": int(rng.integers(10 ** 6)), "_cost": 3})
     for i in range(24 if tier == "quick" else 160):
         name = names[i % len(names)]
